@@ -22,7 +22,7 @@ func (Prop) SelfTest() error              { return padref.SelfTest() }
 func (Prop) Rule() string {
 	return "E2, every declared space is enumerated completely (no sampling, same space in both tiers except part C). " +
 		"A (pad/roundtrip): 4 schemes x all block sizes 1..255 x all message lengths 0..3*bs+1 x 11 endings (last byte or last whole block set to 00, 80, 01, bs, ff; plain counting content) " +
-		"x 3 capacities (exact, len+1, ample spare filled with 0xEE): Pad must not panic, must equal the reference form byte for byte (method 3: first block = 8*len as a bs-byte big-endian integer, judged only when it fits), " +
+		"x 9 capacities (cap=len, len+1, ample, and exactly / one below / one above the padded length of the trailing schemes and of method 3; spare bytes non-zero): Pad must not panic, must equal the reference form byte for byte (method 3: first block = 8*len as a bs-byte big-endian integer, judged only when it fits), " +
 		"must leave src[:len] untouched (method 3: only when it had to allocate), and Unpad of the documented padded string must return exactly the message. " +
 		"B (accept set): bs in {1,2,3,4}, ALL strings of length 0..{4,6,7,8} over {00,01,02,03,04,80,ff} (method 3: {00,01,08,10,18,20,80,ff} so that valid length blocks occur): " +
 		"Unpad accepts s as m iff Pad_ref(m) = s; everything else, every non-multiple length and the empty string must be an error; no panic. " +
@@ -161,9 +161,43 @@ func residueClass(n, bs int) string {
 	return "mid"
 }
 
-var capNames = []string{"exact", "len+1", "ample"}
+var capNames = []string{"exact", "len+1", "ample", "fit", "fit-1", "fit+1", "fit3", "fit3-1", "fit3+1"}
+
+// dirtyCap returns m in a buffer of capacity c (>= len(m)) whose spare bytes are non-zero.
+func dirtyCap(m []byte, c int) []byte {
+	if c < len(m) {
+		c = len(m)
+	}
+	b := make([]byte, c)
+	copy(b, m)
+	for i := len(m); i < c; i++ {
+		b[i] = 0xEE ^ byte(i)
+	}
+	return b[:len(m):c]
+}
 
 func withCap(m []byte, bs, mode int) []byte {
+	// "fit": capacity exactly the padded length of the three trailing schemes; "fit3": exactly method 3's total
+	fit := len(m) + bs - len(m)%bs
+	o3 := (bs - len(m)%bs) % bs
+	if len(m) == 0 {
+		o3 = bs
+	}
+	fit3 := len(m) + o3 + bs
+	switch mode {
+	case 3:
+		return dirtyCap(m, fit)
+	case 4:
+		return dirtyCap(m, fit-1)
+	case 5:
+		return dirtyCap(m, fit+1)
+	case 6:
+		return dirtyCap(m, fit3)
+	case 7:
+		return dirtyCap(m, fit3-1)
+	case 8:
+		return dirtyCap(m, fit3+1)
+	}
 	switch mode {
 	case 0:
 		b := make([]byte, len(m))
@@ -295,7 +329,7 @@ func partA(t *engine.T, sc scheme, bs int) {
 			}
 			m := message(n, bs, e)
 			want, fits := padref.Pad(sc.id, bs, m)
-			for cm := 0; cm < 3; cm++ {
+			for cm := 0; cm < len(capNames); cm++ {
 				src := withCap(m, bs, cm)
 				full := src[:cap(src)]
 				r := safePad(p, src)
@@ -575,7 +609,7 @@ func (Prop) Run(c *engine.Ctx) {
 				t.Fail("harness/unfit-case-fits", "bs=%d n=%d fits", d.bs, d.n)
 				continue
 			}
-			for cm := 0; cm < 3; cm++ {
+			for cm := 0; cm < len(capNames); cm++ {
 				t.Eval(1)
 				t.Nontrivial(fmt.Sprintf("D/%d/%d/%d", d.bs, d.n, cm))
 				r := safePad(p, withCap(m, d.bs, cm))
